@@ -21,7 +21,7 @@ CLAIMS = {
               "inputs; the four rectangular/polar pairs invert each other under the trigonometric axioms (cos²+sin²=1, atan2 of a scaled (cos,sin)); "
               "where a direct hand-written edge lies beside a two-hop hand-written path (Luma/Xyz/Yxy) both give the same value; every transfer "
               "function pair equals the published, mutually inverse pair on the whole real line; hard-coded matrix pairs are mutual inverses; attaching alpha splits it off, converts only the colour and passes "
-              "alpha through. Does not decide the floating-point round-trip error or the Ok*/HSLuv searches. Round 5: the deprecated GammaFn pair is mutually inverse ((x^a)^b with a·b = 1); the 39 alpha type aliases (Srgba, Hsla, …) are Alpha<the colour their name says, T>."),
+              "alpha through. Does not decide the floating-point round-trip error or the Ok*/HSLuv searches. Round 5: the deprecated GammaFn pair is mutually inverse ((x^a)^b with a·b = 1); the 39 alpha type aliases (Srgba, Hsla, …) are Alpha<the colour their name says, T>. Attaching alpha to a bare colour is the struct literal Alpha{color: self, alpha}, removing it is the identity, splitting yields full opacity, for each of the 27 colour types; opaque()/transparent() attach max_intensity()/zero()."),
         design_ref="DESIGN.md §3 C01",
     ),
     "C02": dict(
@@ -74,7 +74,7 @@ CLAIMS["C10"] = dict(
           "from the type's accessors and every other component untouched; HWB moves whiteness and blackness in opposite directions; "
           "blanket Darken/Desaturate negate the argument; Alpha and slice forms forward to the same-named operator with the same argument "
           "and keep alpha; colour-scheme helpers use the documented shifts; arithmetic impls apply the trait's operator to every component. "
-          "Does not decide monotonicity or boundedness under rounding. Round 5: colour schemes on Alpha-wrapped Lab-like colours give the bare colour's results in the same order with self.alpha."),
+          "Does not decide monotonicity or boundedness under rounding. Round 5: colour schemes on Alpha-wrapped Lab-like colours give the bare colour's results in the same order with self.alpha. SaturatingAdd/SaturatingSub on colours, hues and Alpha apply the same-named scalar operation to every component with the matching operand (128 impls)."),
     design_ref="DESIGN.md §3 C10",
 )
 
@@ -131,7 +131,7 @@ CLAIMS["C07"] = dict(
           "in the domain, non-negative by its shape (sum of squares, abs, even powers, max with 0, roots), or one of 24 reviewed table lines. 584 conversion / clamp / operator / "
           "blend / colour-difference bodies contain no unwrap, expect, panic!, unreachable! or slice indexing. Not decided: overflow of "
           "finite intermediates, NaN from transcendental functions, rounding that zeroes an algebraically non-zero divisor where the table "
-          "argues over the reals. Round 5: the division audit is closed-world — every file under palette/src is scanned, not a list of anchored files (a division added to Alpha's Mix was outside the list)."),
+          "argues over the reals. Round 5: the division audit is closed-world — every file under palette/src is scanned, not a list of anchored files (a division added to Alpha's Mix was outside the list). The DOM rule is closed-world as well (every file except the listed transfer-function / sampler files and the SIMD operator table, each with its reason)."),
     design_ref="DESIGN.md §3 C07",
 )
 
@@ -251,7 +251,7 @@ CLAIMS["C16"] = dict(
           "functions and zeroes them for black; the six partial types hold the attributes their names say, from_full copies same-named "
           "attributes, into_dynamic tags them with the same-named variant, from_full(into_full(p)) = p away from black, partial -> XYZ is "
           "cam16_to_xyz of those tags, black -> XYZ 0; UCS J', M' equal the published formulas and their inverses compose to the identity "
-          "exactly. Not decided: floating-point error of the round trip (f32/f64), agreement with the published test vectors' digits."),
+          "exactly. Not decided: floating-point error of the round trip (f32/f64), agreement with the published test vectors' digits. The public entry points (from_xyz / into_xyz / into_full on Cam16, the six partial types and their Alpha forms) and the Convert plumbing hand the colour itself and the caller's parameters to the conversion of their direction (CAM16-FWD, 45 bodies)."),
     design_ref="DESIGN.md §3 C16",
 )
 
@@ -269,7 +269,7 @@ CLAIMS["C17"] = dict(
           "[Color<T>;N] <-> Color<V> conversions map lane i of each field (hue, alpha) to element i; the scalar and mask-generic arms of "
           "Rgb->Hsv and Rgb->Hsl are equal (hue mod 360) and equal the hexcone model on all 26 sign/ordering regions of (r,g,b) (thorough: "
           "plus negative channels). Not decided: f32 vs f64 accuracy, accuracy of wide's transcendental approximations, wide's round-half-even "
-          "vs f32::round (Round::round is not reachable from a SIMD conversion). Round 5: the one allowed mask reduction outside the scalar arm is pinned to its method and polarity (`is_false`, un-negated)."),
+          "vs f32::round (Round::round is not reachable from a SIMD conversion). Round 5: the one allowed mask reduction outside the scalar arm is pinned to its method and polarity (`is_false`, un-negated). The integer impls of the num traits (u8…u128: Zero, One, MinMax, Clamp, PartialCmp, IsValidDivisor, saturating ops) mean what the trait says (130 methods), with std's Ord::min/max/clamp trusted as documented."),
     design_ref="DESIGN.md §3 C17",
 )
 
@@ -318,7 +318,7 @@ CLAIMS["C20"] = dict(
           "seq.next_element()? as an Option (absent alpha = None); the map wrapper stores the alpha value and rejects duplicates; "
           "Alpha/PreAlpha route through these types, require alpha (missing_field(\"alpha\")) while the optional-alpha helpers default to "
           "max_intensity; as_array/as_uint use into_*_ref / from_*. Decides the structural agreement of writer and reader, a necessary "
-          "condition of the round trip; concrete JSON/RON round-trip equality is not decided."),
+          "condition of the round trip; concrete JSON/RON round-trip equality is not decided. EQ-COVER: `equal colour` is only as strong as ==: PartialEq::eq of every colour type, Alpha and PreAlpha compares every component with the same-named one (29 impls) — this found F13 (Cam16's equality ignored the hue; fixed)."),
     design_ref="DESIGN.md §3 C20",
 )
 
